@@ -54,6 +54,7 @@ type Link struct {
 	Queue []*Frame // emitted, not yet delivered or dropped
 	Peer  int      // link index frames are delivered to (-1: scripted peer reads the queue)
 	Sent  int
+	rx    chan func() // receive goroutine's inbox (created on first no-wait injection)
 }
 
 func (l *Link) MTU() uint32                                  { return l.mtu }
@@ -142,6 +143,7 @@ func NewWorld(seed uint64) *World {
 		w.Replay, w.Tape = true, *pendingReplay
 	}
 	verifhook.Yield = w.yield
+	clockYield = func() { w.yield("clock.now") }
 	crng := sim.NewRand(sim.Mix(seed ^ 0xc400))
 	verifhook.Choose = func(site string, n uint32) (uint32, bool) {
 		// e.g. the starting offset of the ephemeral port search
@@ -154,6 +156,13 @@ func NewWorld(seed uint64) *World {
 func (w *World) Close() {
 	verifhook.Yield = nil
 	verifhook.Choose = nil
+	clockYield = nil
+	for _, l := range w.Links {
+		if l.rx != nil {
+			close(l.rx)
+			l.rx = nil
+		}
+	}
 	for _, l := range w.Links {
 		stack.VerifUnregisterLinkEndpoint(l.id)
 	}
@@ -270,6 +279,18 @@ func (w *World) Inject(l *Link, proto tcpip.NetworkProtocolNumber, data []byte, 
 	}
 	w.Log.Byte(0x80 | byte(l.Idx))
 	w.Log.Bytes(data)
+	if l.rx != nil {
+		// arrivals of one link are handled in order: behind whatever its receive
+		// goroutine still has to process
+		vv := views(data, mode)
+		select {
+		case l.rx <- func() { l.disp.DeliverNetworkPacket(l, src, dst, proto, vv) }:
+			synctest.Wait()
+			return
+		default:
+			synctest.Wait()
+		}
+	}
 	l.disp.DeliverNetworkPacket(l, src, dst, proto, views(data, mode))
 	synctest.Wait()
 }
@@ -457,13 +478,34 @@ func (w *World) ApplyWire(s Step) bool {
 // SimSeconds is the fake time covered so far.
 func (w *World) SimNanos() int64 { return int64(time.Since(w.T0)) }
 
-// InjectNoWait hands a packet to the stack without waiting for quiescence, so
-// that several arrivals can be pending at once (bursts).
+// InjectNoWait hands a packet to the link's receive goroutine (the stand-in for
+// a NIC's dispatch loop) without waiting for quiescence: several arrivals can be
+// pending at once, and their processing interleaves - at the seeded yield
+// points - with application goroutines and the stack's own goroutines.
 func (w *World) InjectNoWait(l *Link, proto tcpip.NetworkProtocolNumber, data []byte, mode int) {
 	if l.disp == nil {
 		return
 	}
 	w.Log.Byte(0x80 | byte(l.Idx))
 	w.Log.Bytes(data)
-	l.disp.DeliverNetworkPacket(l, "", "", proto, views(data, mode))
+	vv := views(data, mode)
+	f := func() { l.disp.DeliverNetworkPacket(l, "", "", proto, vv) }
+	if l.rx == nil {
+		l.rx = make(chan func(), 4096)
+		rx := l.rx
+		go func() {
+			for g := range rx {
+				g()
+			}
+		}()
+	}
+	select {
+	case l.rx <- f:
+	default:
+		f()
+	}
 }
+
+// clockYield lets the simulated clock be a schedule point (the stack reads it
+// outside its locks in a few places).
+var clockYield func()
